@@ -137,9 +137,50 @@ let run_cnf toks =
        let vt = match from_dtree d with None -> "-" | Some v -> vt_str v in
        Printf.sprintf "%s dt=%s cw=%s vt=%s" head (dt_str d) (soi (cutwidth d)) vt)
 
+(* ---------- W: deep vtrees.  Only the queried pairs go through mgr_lca (one query costs
+   O(size^2) in the nat-based model; the harness oracle checks all pairs) ---------- *)
+let run_deep toks =
+  let k, r = (match toks with k :: r -> (ioi k, r) | [] -> failwith "bad W case") in
+  let rec take i l acc =
+    if i = 0 then (List.rev acc, l)
+    else (match l with a :: b :: r -> take (i - 1) r ((ioi a, ioi b) :: acc) | _ -> failwith "bad W queries") in
+  let (queries, src) = take k r [] in
+  let tree =
+    match src with
+    | "t" :: r -> Some (parse_shape r)
+    | "rl" :: r -> right_linear (nats r)
+    | "ll" :: r -> left_linear (nats r)
+    | "cnf" :: ";" :: cl_toks ->
+      let rec clauses cur acc = function
+        | [] -> List.rev acc
+        | "0" :: r -> clauses [] (List.rev cur :: acc) r
+        | x :: r -> clauses (ioi x :: cur) acc r in
+      let cls = List.map normalise (clauses [] [] cl_toks) in
+      (match linear_order (cnf_num_vars cls) with
+       | None -> None
+       | Some o -> (match from_cnf cls o.pos_to_var with None -> None | Some d -> from_dtree d))
+    | _ -> failwith "bad W source" in
+  match tree with
+  | None -> "P"
+  | Some t ->
+    let shape = vt_str t in
+    (match manager_new t with
+     | None -> "t=" ^ shape ^ " P"
+     | Some m ->
+       let sz = int_of_nat (size t) in
+       let leaves = flatten t in
+       let on = function None -> "P" | Some n -> soi n in
+       let vi = String.concat "," (List.map (fun l -> soi l ^ ":" ^ on (var_index m l)) leaves) in
+       let q = Buffer.create 1024 in
+       List.iter (fun (a, b) ->
+           Buffer.add_string q (Printf.sprintf "%d,%d:%s:%c;" a b (on (mgr_lca m (nat_of_int a) (nat_of_int b)))
+                                  (if is_prime_index (nat_of_int a) (nat_of_int b) then '1' else '0'))) queries;
+       Printf.sprintf "t=%s n=%s sz=%d vi=%s q=%s" shape (soi (mgr_num_vars m)) sz vi (Buffer.contents q))
+
 let () =
   List.iter (fun line ->
     match split_ws line with
+    | id :: "W" :: r -> print_endline (id ^ " " ^ run_deep r)
     | id :: "O" :: r -> print_endline (id ^ " " ^ run_order r)
     | id :: "V" :: r -> print_endline (id ^ " " ^ run_vtree r)
     | id :: "C" :: r -> print_endline (id ^ " " ^ run_cnf r)
